@@ -146,7 +146,47 @@ def run_cases(ctx, n, tag):
                     ctx.violation("with tp > 0 the result depends on the edge-case handler", inp, impl={"h1": a, "h2": b}, key={"kind": "handler-influence"})
 
 
+def single_group_cases(ctx, n):
+    """a single-instance class group whose class is absent from the prediction, the reference or both"""
+    rng = ctx.rng
+    for k in range(n):
+        metrics = rng.sample(["IOU", "DSC", "RVD", "ASSD"], rng.randint(1, 3))
+        hnd = rand_handler(rng, metrics)
+        it = rng.choice(["SEMANTIC", "UNMATCHED"])
+        scen = rng.choice(["NO_INSTANCES", "EMPTY_PRED", "EMPTY_REF"])
+        z = np.zeros((5, 5), np.uint8)
+        o = z.copy()
+        o[1:3, 1:4] = 1
+        other = z.copy()
+        other[4, 0:2] = 2
+        pred = (z if scen in ("NO_INSTANCES", "EMPTY_PRED") else o) + other
+        ref = (z if scen in ("NO_INSTANCES", "EMPTY_REF") else o) + (other if rng.random() < 0.5 else z)
+        groups = [{"name": "organ", "labels": [1], "merge": False, "single": True}, {"name": "rest", "labels": [2], "merge": False, "single": False}]
+        cfg = E.mk_cfg(it, metrics, matcher=E.naive("IOU", (1, 2)), handler=hnd)
+        res = E.run_impl(cfg, pred.astype(np.uint8), ref.astype(np.uint8), groups=groups)
+        inp = {"shape": [5, 5], "pred": gen.arr_json(pred), "ref": gen.arr_json(ref), "cfg": cfg, "scenario": scen, "groups": groups, "src": f"single{k}"}
+        ctx.case(inp, True)
+        ctx.count("single_instance_group." + scen)
+        if isinstance(res, str):
+            ctx.violation(f"evaluation raised {res} in a zero-TP scenario {scen} (single-instance group)", inp, key={"kind": "raises"})
+            continue
+        s = res["organ"]
+        h = {m: zz for m, zz in hnd["table"]}
+        n_pred = 0 if scen in ("NO_INSTANCES", "EMPTY_PRED") else 1
+        n_ref = 0 if scen in ("NO_INSTANCES", "EMPTY_REF") else 1
+        fails = []
+        if (s["tp"], s["fp"], s["fn"]) != (0, n_pred, n_ref):
+            fails.append(f"tp/fp/fn = {s['tp']}/{s['fp']}/{s['fn']}, but the class has {n_pred} predicted and {n_ref} reference instance(s)")
+        for m in metrics:
+            sqn, stdn, _ = E.NAMES[m]
+            if isinstance(s[sqn], str) or not same_value(s[sqn], E.edge_py(h[m][scen]), exact=True):
+                fails.append(f"{sqn} = {s[sqn]}, but the handler prescribes {h[m][scen]} for {scen}")
+        if fails:
+            ctx.violation("C08 violated (single-instance group): " + fails[0], inp, impl=s, key={"kind": "zero-tp"})
+
+
 def run(ctx):
+    single_group_cases(ctx, ctx.scale(40, 400))
     run_cases(ctx, ctx.scale(900, 9000), "rand")
 
 
@@ -156,6 +196,9 @@ def search(ctx):
 
 def replay(ctx, rec):
     i = rec["input"]
+    if i.get("groups"):
+        single_group_cases(ctx, 60)
+        return
     ev = None
     if i.get("history"):
         with impl.quiet():
